@@ -1,4 +1,6 @@
-import QuicModel.Prelude
-import QuicModel.Driver
 import QuicModel.Codec.VarInt
+import QuicModel.Driver
 import QuicModel.Drivers.All
+import QuicModel.Drivers.VarInt
+import QuicModel.Generated.VarInt
+import QuicModel.Prelude
